@@ -288,6 +288,12 @@ def write_replay(pid, fail):
 # ---------------------------------------------------------------- main driver
 
 
+def _rule_extra(pid):
+    from vf.rule_extra import EXTRA
+
+    return (" ALSO (added after the seeded-change waves): " + EXTRA[pid]) if pid in EXTRA else ""
+
+
 def chunked(it, n):
     buf = []
     for x in it:
@@ -380,7 +386,7 @@ def run_property(pid: str, tier: str, seed: int) -> int:
     coverage = {
         "evaluations": agg["n"],
         "distinct_nontrivial": agg["nontrivial"],
-        "rule": m.RULE,
+        "rule": m.RULE + _rule_extra(pid),
         "samples": agg["samples"][:3] or cases[:1],
         "exhaustive": True,
         "observation_classes": len(agg["classes"]),
